@@ -5,7 +5,15 @@ mod forms_rt;
 mod forms_int;
 #[path = "../ops_forms.rs"]
 mod ops_forms;
+#[path = "../gen/forms_rt2.rs"]
+mod forms_rt2;
+#[path = "../gen/forms_ratio.rs"]
+mod forms_ratio;
+#[path = "../gen/forms_float.rs"]
+mod forms_float;
+#[path = "../ops_forms2.rs"]
+mod ops_forms2;
 
 fn main() {
-    verif_harness::run_main(&[ops_forms::dispatch]);
+    verif_harness::run_main(&[ops_forms::dispatch, ops_forms2::dispatch]);
 }
